@@ -3,52 +3,35 @@ package c09
 import (
 	"fmt"
 	"os"
-	"strings"
 	"testing"
 
 	ds "github.com/sealdice/dicescript"
-
-	"verif/harness/rt"
-	"verif/harness/vmx"
 )
 
 func TestScratch(t *testing.T) {
 	if os.Getenv("C09_SCRATCH") == "" {
 		t.Skip()
 	}
-	progs := []string{
-		"x=[[1]]; y=[x,x]",
-		"x=[[1]]; y=x",
-		"x={'a':[1]}; y=[x,x]",
-		"x={'a':{}}; y=x",
-		"x=[1]; y=[x,x]; z=[y,y]",
-		"&c = 1; &c.k = [1]; y = &c",
-		"&c = 1; y = [&c, &c]",
-		"func f() { 1 }; y=[f,f]",
-		"x=[0]; x[0]=x",
-		"x={'a':[0]}; x.a[0] = x",
-	}
-	for _, p := range progs {
+	for _, body := range []string{"func g() { true }", "func g() { return 1 }", "func g() { 1; 2 }", "&g = 1 + 2"} {
 		vm := ds.NewVM()
-		vm.Config.OpCountLimit = 30000
-		var err error
-		pi := rt.Guard(func() { err = vm.Run(p) })
-		fmt.Printf("---- %q\n  err=%v panic=%v rest=%q attrs=%s\n", p, err, pi != nil, vm.RestInput, vmx.AttrsRepr(vm))
-		var b []byte
-		pi = rt.Guard(func() { b, err = vm.Attrs.ToJSON() })
-		if pi != nil {
-			fmt.Printf("  ToJSON panic %s\n", pi.Value)
-			continue
-		}
-		fmt.Printf("  json=%s err=%v\n", b, err)
-		if err != nil {
-			continue
-		}
-		m := &ds.ValueMap{}
-		err = m.UnmarshalJSON(b)
+		_ = vm.Run(body)
+		v, _ := vm.Attrs.Load("g")
+		code, ok := ds.VerifBodyCode(v)
+		fmt.Println(body, "eager", ok, code)
+		b, _ := v.ToJSON()
+		v2, _ := ds.VMValueFromJSON(b)
 		vm2 := ds.NewVM()
-		vm2.Attrs = m
-		fmt.Printf("  restored err=%v attrs=%s same=%v\n", err, vmx.AttrsRepr(vm2), vmx.AttrsRepr(vm2) == vmx.AttrsRepr(vm))
+		vm2.Attrs.Store("g", v2)
+		src := "g()"
+		if body[0] == '&' {
+			src = "g"
+		}
+		err := vm2.Run(src)
+		code2, ok2 := ds.VerifBodyCode(v2)
+		fmt.Println("   lazy", ok2, code2, err, vm2.NumOpCount)
+		err = vm.Run(src)
+		fmt.Println("   eager ops", err, vm.NumOpCount)
+		err = vm2.Run(src)
+		fmt.Println("   lazy 2nd ops", err, vm2.NumOpCount)
 	}
-	_ = strings.Join
 }
